@@ -119,6 +119,9 @@ let () =
    with End_of_file -> close_in ic);
   let cf = { cf_use_fast = !fast; cf_debug = !debug } in
   let acc_on = (try Sys.getenv "MODEL_ACC_CHECK" = "1" with Not_found -> false) in
+  let prot_on = (try Sys.getenv "MODEL_PROT_CHECK" = "1" with Not_found -> false) in
+  let prot_selftest = (try Sys.getenv "MODEL_PROT_SELFTEST" = "1" with Not_found -> false) in
+  let prot_failed = ref false and prot_msg = ref "" in
   let acc_failed = ref false and acc_msg = ref "" and acc_step = ref 0 in
   let acc_addrs = ref (List.filter (fun a -> string_of_n a <> "0") !inits) in
   let acc_conts = List.init 12 n_of_int and acc_thrs = List.init 12 n_of_int and acc_hnds = List.init 200 n_of_int in
@@ -143,6 +146,15 @@ let () =
                  | Some a -> acc_failed := true; acc_msg := Printf.sprintf ". ACC-VIOLATION addr %s after step %d" (string_of_n a) !acc_step
                  | None -> ()
              end;
+             if prot_on && not !prot_failed then begin
+               let faulted = List.exists (fun t -> match (s'.thr t).t_status with Faulted | Panicked -> true | _ -> false) acc_thrs in
+               if not faulted then
+                 let nn = int_of_n (s'.sh.mem LHead) in
+                 let nodes = List.init nn n_of_int in
+                 match prot_check s' nodes acc_thrs acc_hnds (if prot_selftest then [] else acc_conts) with
+                 | Some (a, b) -> prot_failed := true; prot_msg := Printf.sprintf ". PROT-VIOLATION %s %s after step %d" (string_of_n a) (string_of_n b) !acc_step
+                 | None -> ()
+             end;
              incr acc_step;
              (match evs with
               | [] -> Printf.printf "%s NOP\n" t
@@ -154,6 +166,7 @@ let () =
      done
    with End_of_file -> ());
   if !acc_failed then print_endline !acc_msg;
+  if !prot_failed then print_endline !prot_msg;
   (* final state, in the harness's format *)
   let s = !st in
   let all_cmds = List.concat (List.rev !threads) in
